@@ -1,2 +1,991 @@
-pub fn run_c05(_ctx: &crate::Ctx) -> i32 { 2 }
-pub fn run_c06(_ctx: &crate::Ctx) -> i32 { 2 }
+//! C05 / C06 — the sequence monitors over the scripted terminal's event log.
+//! (C11 re-uses the runner and the abstract-log checker.)
+
+use crate::script::{drive_stream, log_to_json, Chunking, Entry, Ev, Script, Term};
+use crate::sut::{guarded, panic_signature};
+use crate::Ctx;
+use refcodec::codec::{apdu_len, Codec, Payload};
+use refcodec::evidence::{sharded, Report};
+use refcodec::gen::{Gen, GenCfg, Presence};
+use refcodec::hex;
+use refcodec::layout::Schema;
+use refcodec::prng::{fnv, Rng};
+use refcodec::tables::{reply_enum, StreamDef, STREAMS};
+use refcodec::val::render_struct;
+use serde_json::json;
+use std::collections::BTreeMap;
+use std::path::PathBuf;
+use zvt::io::PacketTransport;
+use zvt::sequences::Sequence;
+use zvt::ZvtSerializer;
+
+pub const ACK: [u8; 3] = [0x80, 0x00, 0x00];
+
+// ---------------------------------------------------------------- running one stream
+
+pub struct WriteFileParams {
+    pub dir: PathBuf,
+    pub password: usize,
+    pub block: u32,
+}
+
+macro_rules! seq_run {
+    ($S:ty, $cmd:expr, $term:expr) => {{
+        let (input, _) = <<$S as Sequence>::Input as ZvtSerializer>::zvt_deserialize($cmd).map_err(|e| format!("harness: command not decodable: {e:?}"))?;
+        let mut transport = PacketTransport { source: $term.clone() };
+        let mut stream = <$S as Sequence>::into_stream(&input, &mut transport);
+        Ok(drive_stream(stream.as_mut(), $term, 100_000))
+    }};
+}
+
+/// Run the real stream `name` against the scripted terminal.  Ok(false) = harness guard fired.
+pub fn run_stream(name: &str, cmd: &[u8], term: &Term, wf: Option<&WriteFileParams>) -> Result<bool, String> {
+    use zvt::feig::sequences as fs;
+    use zvt::sequences as s;
+    let r = guarded(|| -> Result<bool, String> {
+        match name {
+            "Registration" => seq_run!(s::Registration, cmd, term),
+            "ReadCard" => seq_run!(s::ReadCard, cmd, term),
+            "Initialization" => seq_run!(s::Initialization, cmd, term),
+            "SetTerminalId" => seq_run!(s::SetTerminalId, cmd, term),
+            "ResetTerminal" => seq_run!(s::ResetTerminal, cmd, term),
+            "Diagnosis" => seq_run!(s::Diagnosis, cmd, term),
+            "EndOfDay" => seq_run!(s::EndOfDay, cmd, term),
+            "Authorization" => seq_run!(s::Authorization, cmd, term),
+            "Reservation" => seq_run!(s::Reservation, cmd, term),
+            "PartialReversal" => seq_run!(s::PartialReversal, cmd, term),
+            "PreAuthReversal" => seq_run!(s::PreAuthReversal, cmd, term),
+            "PrintSystemConfiguration" => seq_run!(s::PrintSystemConfiguration, cmd, term),
+            "SelectLanguage" => seq_run!(s::SelectLanguage, cmd, term),
+            "StatusEnquiry" => seq_run!(s::StatusEnquiry, cmd, term),
+            "feig::GetSystemInfo" => seq_run!(fs::GetSystemInfo, cmd, term),
+            "feig::FactoryReset" => seq_run!(fs::FactoryReset, cmd, term),
+            "feig::ChangeHostConfiguration" => seq_run!(fs::ChangeHostConfiguration, cmd, term),
+            "feig::WriteFile" => {
+                let p = wf.expect("WriteFile parameters");
+                let mut transport = PacketTransport { source: term.clone() };
+                let mut stream = fs::WriteFile::into_stream(p.dir.clone(), p.password, p.block, &mut transport);
+                Ok(drive_stream(stream.as_mut(), term, 100_000))
+            }
+            other => Err(format!("harness: unknown stream {other}")),
+        }
+    });
+    match r {
+        Ok(x) => x,
+        Err(p) => Err(format!("PANIC {p}")),
+    }
+}
+
+// ---------------------------------------------------------------- abstract log
+
+#[derive(Clone, Debug, PartialEq)]
+pub enum Abs {
+    /// bytes written by the client without an intervening read attempt
+    W(Vec<u8>),
+    /// bytes delivered in one run of read attempts (no write in between); `parked` if the run ended on a read that found nothing
+    Read { n: usize, parked: bool, eof: bool },
+    Yield { ok: bool, debug: String },
+    End,
+    Stuck,
+}
+
+pub fn abstract_log(log: &[Ev]) -> Vec<Abs> {
+    let mut out: Vec<Abs> = vec![];
+    for e in log {
+        match e {
+            Ev::W(b) => {
+                if let Some(Abs::W(prev)) = out.last_mut() {
+                    prev.extend_from_slice(b);
+                } else {
+                    out.push(Abs::W(b.clone()));
+                }
+            }
+            Ev::Rq(0) => {}
+            Ev::Rq(_) => {
+                if !matches!(out.last(), Some(Abs::Read { .. })) {
+                    out.push(Abs::Read { n: 0, parked: false, eof: false });
+                }
+            }
+            Ev::R(b) => {
+                if let Some(Abs::Read { n, .. }) = out.last_mut() {
+                    *n += b.len();
+                }
+            }
+            Ev::Pend => {
+                if let Some(Abs::Read { parked, .. }) = out.last_mut() {
+                    *parked = true;
+                }
+            }
+            Ev::Eof => {
+                if let Some(Abs::Read { eof, .. }) = out.last_mut() {
+                    *eof = true;
+                }
+            }
+            Ev::Yield { ok, debug } => out.push(Abs::Yield { ok: *ok, debug: debug.clone() }),
+            Ev::End => out.push(Abs::End),
+            Ev::Stuck => out.push(Abs::Stuck),
+        }
+    }
+    out
+}
+
+fn kind(a: Option<&Abs>, cmd_len: usize) -> String {
+    match a {
+        None => "nothing".into(),
+        Some(Abs::W(b)) if b == &ACK => "W(ack)".into(),
+        Some(Abs::W(b)) if b.len() > 3 && b[0] == 0x80 && b[1] == 0x00 => "W(data block)".into(),
+        Some(Abs::W(b)) if b.len() >= cmd_len && cmd_len > 3 => "W(command…)".into(),
+        Some(Abs::W(b)) if b.len() % 3 == 0 && b.chunks(3).all(|c| c == ACK) => "W(several acks)".into(),
+        Some(Abs::W(_)) => "W(other bytes)".into(),
+        Some(Abs::Read { parked: true, .. }) => "Read(parked: nothing readable yet)".into(),
+        Some(Abs::Read { .. }) => "Read".into(),
+        Some(Abs::Yield { ok: true, .. }) => "Yield(ok)".into(),
+        Some(Abs::Yield { ok: false, .. }) => "Yield(err)".into(),
+        Some(Abs::End) => "End".into(),
+        Some(Abs::Stuck) => "Stuck".into(),
+    }
+}
+
+fn abs_json(a: &[Abs]) -> serde_json::Value {
+    serde_json::Value::Array(
+        a.iter()
+            .map(|x| match x {
+                Abs::W(b) => json!({"W": if b.len() <= 40 { hex(b) } else { format!("{}…({} bytes)", hex(&b[..20]), b.len()) }}),
+                Abs::Read { n, parked, eof } => json!({"Read": n, "parked": parked, "eof": eof}),
+                Abs::Yield { ok, debug } => json!({"Yield": if *ok { "ok" } else { "err" }, "debug": debug.chars().take(100).collect::<String>()}),
+                Abs::End => json!("End"),
+                Abs::Stuck => json!("Stuck"),
+            })
+            .collect(),
+    )
+}
+
+// ---------------------------------------------------------------- one exchange
+
+#[derive(Clone, Debug)]
+pub struct Reply {
+    pub variant: String,
+    pub bytes: Vec<u8>,
+    /// Debug the yielded item must have: `Variant(Struct { .. })`
+    pub item_debug: String,
+    /// what the client must write in answer (ack, or the data block)
+    pub answer: Vec<u8>,
+}
+
+pub enum CmdCheck {
+    Exact(Vec<u8>),
+    /// a WriteFile announcement: any order of the files
+    WriteFile { password: u128, files: BTreeMap<u8, u32>, len: usize },
+}
+
+impl CmdCheck {
+    pub fn len(&self) -> usize {
+        match self {
+            CmdCheck::Exact(b) => b.len(),
+            CmdCheck::WriteFile { len, .. } => *len,
+        }
+    }
+    pub fn matches(&self, schema: &Schema, got: &[u8]) -> bool {
+        match self {
+            CmdCheck::Exact(b) => b == got,
+            CmdCheck::WriteFile { password, files, .. } => {
+                let codec = Codec::new(schema);
+                let Ok((v, rest)) = codec.decode(schema.get("feig::packets::WriteFile"), got) else { return false };
+                if !rest.is_empty() || v.field("password").and_then(|p| p.num()) != Some(*password) {
+                    return false;
+                }
+                let mut seen = BTreeMap::new();
+                let Some(list) = v.path("tlv.files") else { return files.is_empty() };
+                for f in list.list() {
+                    let (Some(id), Some(size)) = (f.field("file_id").and_then(|x| x.num()), f.field("file_size").and_then(|x| x.num())) else { return false };
+                    if f.field("file_offset").and_then(|x| x.num()).is_some() || f.field("payload").and_then(|x| x.inner()).is_some() {
+                        return false;
+                    }
+                    if seen.insert(id as u8, size as u32).is_some() {
+                        return false;
+                    }
+                }
+                &seen == files
+            }
+        }
+    }
+}
+
+pub struct Exchange<'a> {
+    pub stream: &'a str,
+    pub cmd_bytes: Vec<u8>,
+    pub cmd_check: CmdCheck,
+    /// what the terminal sends in place of the acknowledgement of the command
+    pub ack: Vec<u8>,
+    pub replies: Vec<Reply>,
+    /// index of the reply that ends the exchange (C05), if any
+    pub final_at: Option<usize>,
+    pub junk: Vec<u8>,
+    pub chunking: Chunking,
+    pub pend_between: bool,
+    pub write_chunk: Option<usize>,
+    /// C06: the faulty bytes sent after `replies` (which are all valid, non-final)
+    pub fault: Option<Fault>,
+    pub wf: Option<&'a WriteFileParams>,
+}
+
+#[derive(Clone, Debug)]
+pub struct Fault {
+    pub kind: &'static str,
+    /// replaces the ack (position 0) or follows the valid replies
+    pub at_ack: bool,
+    pub bytes: Vec<u8>,
+    /// the connection ends after these bytes
+    pub eof: bool,
+}
+
+pub struct Observed {
+    pub log: Vec<Ev>,
+    pub abs: Vec<Abs>,
+    pub delivered: usize,
+}
+
+impl<'a> Exchange<'a> {
+    fn script(&self) -> Script {
+        let cmd_len = self.cmd_check.len();
+        let mut entries = vec![];
+        let mut gate = cmd_len;
+        if let Some(f) = self.fault.as_ref().filter(|f| f.at_ack) {
+            entries.push(Entry { bytes: f.bytes.clone(), gate });
+        } else {
+            entries.push(Entry { bytes: self.ack.clone(), gate });
+            for (i, r) in self.replies.iter().enumerate() {
+                entries.push(Entry { bytes: r.bytes.clone(), gate });
+                gate += r.answer.len();
+                if Some(i) == self.final_at {
+                    break;
+                }
+            }
+            if let Some(f) = &self.fault {
+                entries.push(Entry { bytes: f.bytes.clone(), gate });
+            }
+        }
+        if !self.junk.is_empty() {
+            // queued behind the final packet: present in the connection as soon as the final packet is
+            let g = entries.last().map(|e| e.gate).unwrap_or(0);
+            entries.push(Entry { bytes: self.junk.clone(), gate: g });
+        }
+        let mut s = Script::new(entries);
+        s.chunking = self.chunking.clone();
+        s.pend_between = self.pend_between;
+        s.write_chunk = self.write_chunk;
+        s.eof = self.fault.as_ref().map(|f| f.eof).unwrap_or(false);
+        s
+    }
+
+    pub fn run(&self) -> Result<Observed, String> {
+        let term = Term::new(self.script());
+        match run_stream(self.stream, &self.cmd_bytes, &term, self.wf) {
+            Ok(true) => {}
+            Ok(false) => return Err("harness poll guard fired".into()),
+            Err(e) => return Err(e),
+        }
+        let log = term.log();
+        Ok(Observed { abs: abstract_log(&log), delivered: term.delivered(), log })
+    }
+
+    fn case_json(&self, obs: Option<&Observed>) -> serde_json::Value {
+        json!({
+            "kind": "sequence",
+            "stream": self.stream,
+            "command": hex(&self.cmd_bytes),
+            "script": self.replies.iter().map(|r| json!({"variant": r.variant, "bytes": if r.bytes.len() <= 64 { hex(&r.bytes) } else { format!("{} bytes", r.bytes.len()) }})).collect::<Vec<_>>(),
+            "final_at": self.final_at,
+            "fault": self.fault.as_ref().map(|f| json!({"kind": f.kind, "at_ack": f.at_ack, "bytes": hex(&f.bytes), "then_eof": f.eof})),
+            "junk": hex(&self.junk),
+            "chunking": format!("{:?}", self.chunking),
+            "pending_between_chunks": self.pend_between,
+            "write_chunk": self.write_chunk,
+            "observed": obs.map(|o| abs_json(&o.abs)),
+            "log": obs.map(|o| log_to_json(&o.log[..o.log.len().min(200)])),
+        })
+    }
+
+    /// The abstract log a correct client must produce for the valid part of the exchange (C05 rules S1-S7).
+    fn expected_valid(&self, upto: usize, include_end: bool) -> Vec<Abs> {
+        let mut exp = vec![Abs::W(self.cmd_bytes.clone())];
+        let mut pending_read = self.ack.len();
+        for r in self.replies.iter().take(upto) {
+            exp.push(Abs::Read { n: pending_read + r.bytes.len(), parked: false, eof: false });
+            pending_read = 0;
+            exp.push(Abs::W(r.answer.clone()));
+            exp.push(Abs::Yield { ok: true, debug: r.item_debug.clone() });
+        }
+        if include_end {
+            exp.push(Abs::End);
+        }
+        exp
+    }
+
+    /// C05: acknowledge every packet once, in order, stop at the final packet.
+    pub fn check_c05(&self, r: &mut Report, schema: &Schema, prop: &str) {
+        let k = self.final_at.expect("C05 exchange has a final reply") + 1;
+        let obs = match self.run() {
+            Ok(o) => o,
+            Err(e) => {
+                if let Some(p) = e.strip_prefix("PANIC ") {
+                    r.violation(&format!("{}: {}", self.stream, panic_signature(p)), &format!("the sequence panicked: {p}"), self.case_json(None));
+                } else {
+                    r.inconclusive(&e);
+                }
+                return;
+            }
+        };
+        let exp = self.expected_valid(k, true);
+        let cmd_len = self.cmd_check.len();
+        // the command may legitimately differ in the order of announced files (WriteFile)
+        let mut got = obs.abs.clone();
+        if let (Some(Abs::W(w)), CmdCheck::WriteFile { .. }) = (got.first().cloned(), &self.cmd_check) {
+            if self.cmd_check.matches(schema, &w) {
+                got[0] = Abs::W(self.cmd_bytes.clone());
+            }
+        }
+        let expected_delivered = self.ack.len() + self.replies.iter().take(k).map(|x| x.bytes.len()).sum::<usize>();
+        if got != exp {
+            let i = got.iter().zip(exp.iter()).take_while(|(a, b)| a == b).count();
+            let what = match (exp.get(i), got.get(i)) {
+                (Some(Abs::Yield { debug: e, .. }), Some(Abs::Yield { ok: true, debug: g })) => format!("step {i}: yielded item {} but the packet that arrived decodes to {}", g.chars().take(120).collect::<String>(), e.chars().take(120).collect::<String>()),
+                (Some(Abs::Read { n: e, .. }), Some(Abs::Read { n: g, parked, .. })) => format!("step {i}: read {g} bytes{} where exactly {e} were due", if *parked { " and then parked on a gated read (an answer was outstanding)" } else { "" }),
+                (Some(Abs::W(e)), Some(Abs::W(g))) => format!("step {i}: wrote {} where {} was due", hex(&g[..g.len().min(32)]), hex(&e[..e.len().min(32)])),
+                (e, g) => format!("step {i}: expected {} but observed {}", kind(e, cmd_len), kind(g, cmd_len)),
+            };
+            let sig = match (exp.get(i), got.get(i)) {
+                (Some(Abs::Yield { .. }), Some(Abs::Yield { ok: true, .. })) => "yields a different item than the packet that arrived".to_string(),
+                (Some(Abs::Read { n: e, .. }), Some(Abs::Read { n: g, .. })) => format!("reads {} than the packets due", if g > e { "more" } else { "less" }),
+                (e, g) => format!("expected {} observed {}", kind(e, cmd_len), kind(g, cmd_len)),
+            };
+            r.violation(&format!("{prop} {}: {sig}", self.stream), &what, self.case_json(Some(&obs)));
+        } else if obs.delivered != expected_delivered {
+            r.violation(&format!("{prop} {}: bytes behind the final packet were consumed", self.stream), &format!("{} bytes delivered, ack + replies up to the final packet are {} bytes", obs.delivered, expected_delivered), self.case_json(Some(&obs)));
+        } else if r.wants_sample() && k >= 2 {
+            r.sample(json!({"stream": self.stream, "script": self.replies.iter().take(k).map(|x| x.variant.clone()).collect::<Vec<_>>(), "junk_len": self.junk.len(), "chunking": format!("{:?}", self.chunking), "abstract_log": abs_json(&obs.abs)}));
+        }
+    }
+
+    /// C06: exactly one error, then silence.
+    pub fn check_c06(&self, r: &mut Report, schema: &Schema, prop: &str) {
+        let f = self.fault.as_ref().expect("C06 exchange has a fault");
+        let obs = match self.run() {
+            Ok(o) => o,
+            Err(e) => {
+                if let Some(p) = e.strip_prefix("PANIC ") {
+                    r.violation(&format!("{} [{}]: {}", self.stream, f.kind, panic_signature(p)), &format!("the sequence panicked: {p}"), self.case_json(None));
+                } else {
+                    r.inconclusive(&e);
+                }
+                return;
+            }
+        };
+        let cmd_len = self.cmd_check.len();
+        let mut got = obs.abs.clone();
+        if let (Some(Abs::W(w)), CmdCheck::WriteFile { .. }) = (got.first().cloned(), &self.cmd_check) {
+            if self.cmd_check.matches(schema, &w) {
+                got[0] = Abs::W(self.cmd_bytes.clone());
+            }
+        }
+        // valid prefix: everything up to and including the yield of the last valid reply
+        let nvalid = if f.at_ack { 0 } else { self.replies.len() };
+        let exp = self.expected_valid(nvalid, false);
+        let mut tail_start = exp.len();
+        let mut prefix_ok = got.len() >= exp.len() && got[..exp.len()] == exp[..];
+        if nvalid == 0 {
+            // nothing was answered yet: prefix is just W(cmd)
+            prefix_ok = got.first() == exp.first();
+            tail_start = 1;
+        }
+        let fault_desc = format!("{}{}", f.kind, if f.at_ack { "@ack" } else { "" });
+        if !prefix_ok {
+            let i = got.iter().zip(exp.iter()).take_while(|(a, b)| a == b).count();
+            r.violation(
+                &format!("{prop} {} [{}]: before the fault: expected {} observed {}", self.stream, fault_desc, kind(exp.get(i), cmd_len), kind(got.get(i), cmd_len)),
+                &format!("the valid part of the exchange deviates at step {i}"),
+                self.case_json(Some(&obs)),
+            );
+            return;
+        }
+        let tail = &got[tail_start..];
+        let writes: Vec<&Abs> = tail.iter().filter(|a| matches!(a, Abs::W(_))).collect();
+        let yields: Vec<&Abs> = tail.iter().filter(|a| matches!(a, Abs::Yield { .. })).collect();
+        let problem = if let Some(Abs::W(b)) = writes.first() {
+            Some((format!("writes {} after the failure", if b.starts_with(&ACK) { "an acknowledgement" } else { "bytes" }), format!("wrote {} after the faulty bytes were delivered", hex(&b[..b.len().min(32)]))))
+        } else if tail.iter().any(|a| matches!(a, Abs::Stuck)) {
+            Some(("keeps waiting instead of reporting the failure".into(), "the stream parked on a read after the fault".into()))
+        } else if yields.len() != 1 {
+            Some((format!("{} items after the fault instead of exactly one error", yields.len()), format!("items after the fault: {:?}", yields.iter().map(|y| kind(Some(y), cmd_len)).collect::<Vec<_>>())))
+        } else if !matches!(yields[0], Abs::Yield { ok: false, .. }) {
+            Some(("the faulty packet is yielded as a value".into(), format!("{:?}", yields[0])))
+        } else if tail.last() != Some(&Abs::End) {
+            Some(("does not end after the error".into(), format!("last event: {}", kind(tail.last(), cmd_len))))
+        } else if !matches!(tail.iter().rev().nth(1), Some(Abs::Yield { ok: false, .. })) {
+            Some(("events between the error and the end".into(), String::new()))
+        } else {
+            None
+        };
+        if let Some((sig, what)) = problem {
+            r.violation(&format!("{prop} {} [{}]: {sig}", self.stream, fault_desc), &what, self.case_json(Some(&obs)));
+        } else if r.wants_sample() && nvalid >= 1 {
+            r.sample(json!({"stream": self.stream, "valid_prefix": self.replies.iter().map(|x| x.variant.clone()).collect::<Vec<_>>(), "fault": fault_desc, "fault_bytes": hex(&f.bytes[..f.bytes.len().min(24)]), "abstract_log": abs_json(&obs.abs)}));
+        }
+    }
+}
+
+// ---------------------------------------------------------------- reply pools
+
+pub struct Pools {
+    /// struct key -> canonical encodings with their rendering
+    pub by_type: BTreeMap<String, Vec<(Vec<u8>, String)>>,
+}
+
+impl Pools {
+    pub fn build(schema: &Schema, seed: u64, per_type: usize) -> Pools {
+        let codec = Codec::new(schema);
+        let gen = Gen::new(schema, GenCfg { big: false, stray_pct: 0 });
+        let mut by_type = BTreeMap::new();
+        for def in schema.iter().filter(|d| d.cf.is_some()) {
+            let mut rng = Rng::derive(seed, 0x5E0 ^ fnv(def.key.as_bytes()));
+            let mut v = vec![];
+            let mut tries = 0;
+            while v.len() < per_type && tries < per_type * 40 {
+                tries += 1;
+                let presence = match v.len() {
+                    0 => Presence::AllAbsent,
+                    1 => Presence::AllPresent,
+                    _ => Presence::Random,
+                };
+                let val = gen.gen_struct(&mut rng, def, presence, 0);
+                match codec.canonical(def, &val) {
+                    Ok(b) if b.len() <= 900 => v.push((b, render_struct(schema, def, &val))),
+                    _ => {
+                        if presence != Presence::Random && tries > 20 {
+                            // systematic mask not canonical for this type: fall back to random
+                            let val = gen.gen_struct(&mut rng, def, Presence::Random, 0);
+                            if let Ok(b) = codec.canonical(def, &val) {
+                                if b.len() <= 900 {
+                                    v.push((b, render_struct(schema, def, &val)));
+                                }
+                            }
+                        }
+                    }
+                }
+            }
+            by_type.insert(def.key.clone(), v);
+        }
+        Pools { by_type }
+    }
+    pub fn pick(&self, rng: &mut Rng, key: &str) -> &(Vec<u8>, String) {
+        let v = &self.by_type[key];
+        &v[rng.below(v.len() as u64) as usize]
+    }
+}
+
+/// All words over the reply alphabet of the form non-final^d final, d < depth.
+pub fn scripts_up_to(sd: &StreamDef, depth: usize) -> Vec<Vec<&'static str>> {
+    let e = reply_enum(sd.replies);
+    let all: Vec<&'static str> = e.variants.iter().map(|v| v.0).collect();
+    if sd.finals.is_empty() {
+        return all.iter().map(|v| vec![*v]).collect();
+    }
+    let nf: Vec<&'static str> = all.iter().filter(|v| !sd.finals.contains(v)).cloned().collect();
+    let mut out = vec![];
+    let mut level: Vec<Vec<&'static str>> = vec![vec![]];
+    for _ in 0..depth {
+        for p in &level {
+            for f in sd.finals {
+                let mut w = p.clone();
+                w.push(*f);
+                out.push(w);
+            }
+        }
+        let mut next = vec![];
+        for p in &level {
+            for x in &nf {
+                let mut w = p.clone();
+                w.push(*x);
+                next.push(w);
+            }
+        }
+        level = next;
+        if level.is_empty() {
+            break;
+        }
+    }
+    out
+}
+
+/// Prefixes of valid non-final replies, length <= depth.
+pub fn prefixes_up_to(sd: &StreamDef, depth: usize) -> Vec<Vec<&'static str>> {
+    let e = reply_enum(sd.replies);
+    let all: Vec<&'static str> = e.variants.iter().map(|v| v.0).collect();
+    if sd.finals.is_empty() {
+        return vec![vec![]];
+    }
+    let nf: Vec<&'static str> = all.iter().filter(|v| !sd.finals.contains(v)).cloned().collect();
+    let mut out = vec![vec![]];
+    let mut level: Vec<Vec<&'static str>> = vec![vec![]];
+    for _ in 0..depth {
+        let mut next = vec![];
+        for p in &level {
+            for x in &nf {
+                let mut w = p.clone();
+                w.push(*x);
+                next.push(w);
+            }
+        }
+        out.extend(next.iter().cloned());
+        level = next;
+    }
+    out
+}
+
+pub fn variant_key(sd: &StreamDef, variant: &str) -> &'static str {
+    reply_enum(sd.replies).variants.iter().find(|v| v.0 == variant).unwrap().1
+}
+
+pub fn is_final(sd: &StreamDef, variant: &str) -> bool {
+    sd.finals.is_empty() || sd.finals.contains(&variant)
+}
+
+/// A command value for a stream (canonical encoding of its input type).
+pub fn command_for(schema: &Schema, pools: &Pools, rng: &mut Rng, sd: &StreamDef) -> Vec<u8> {
+    let _ = schema;
+    pools.pick(rng, sd.command).0.clone()
+}
+
+// ---------------------------------------------------------------- WriteFile support (shared with C11)
+
+pub const RECOGNISED: [(&str, u8); 21] = [
+    ("firmware/kernel.gz", 0x10),
+    ("firmware/rootfs.gz", 0x11),
+    ("firmware/components.tar.gz", 0x12),
+    ("firmware/update.spec", 0x13),
+    ("firmware/update_extended.spec", 0x14),
+    ("app0/update.spec", 0x20),
+    ("app0/update.tar.gz", 0x21),
+    ("app1/update.spec", 0x22),
+    ("app1/update.tar.gz", 0x23),
+    ("app2/update.spec", 0x24),
+    ("app2/update.tar.gz", 0x25),
+    ("app3/update.spec", 0x26),
+    ("app3/update.tar.gz", 0x27),
+    ("app4/update.spec", 0x28),
+    ("app4/update.tar.gz", 0x29),
+    ("app5/update.spec", 0x30),
+    ("app5/update.tar.gz", 0x31),
+    ("app6/update.spec", 0x32),
+    ("app6/update.tar.gz", 0x33),
+    ("app7/update.spec", 0x34),
+    ("app7/update.tar.gz", 0x35),
+];
+
+pub struct PayloadDir {
+    pub dir: PathBuf,
+    pub files: BTreeMap<u8, Vec<u8>>,
+}
+
+impl PayloadDir {
+    pub fn create(tag: &str, files: &BTreeMap<u8, Vec<u8>>, extra: &[(&str, Vec<u8>)]) -> PayloadDir {
+        let base = PathBuf::from(std::env::var("VERIF_WORK").unwrap_or_else(|_| "/verif/.build/main".into())).join("scratch").join(format!("{}-{}", std::process::id(), tag));
+        let _ = std::fs::remove_dir_all(&base);
+        std::fs::create_dir_all(&base).expect("scratch dir");
+        for (id, content) in files {
+            let rel = RECOGNISED.iter().find(|r| r.1 == *id).unwrap().0;
+            let p = base.join(rel);
+            std::fs::create_dir_all(p.parent().unwrap()).unwrap();
+            std::fs::write(&p, content).unwrap();
+        }
+        for (rel, content) in extra {
+            let p = base.join(rel);
+            std::fs::create_dir_all(p.parent().unwrap()).unwrap();
+            std::fs::write(&p, content).unwrap();
+        }
+        PayloadDir { dir: base, files: files.clone() }
+    }
+}
+
+impl Drop for PayloadDir {
+    fn drop(&mut self) {
+        let _ = std::fs::remove_dir_all(&self.dir);
+    }
+}
+
+/// Reference encodings around a firmware upload.
+pub struct WfCodec<'a> {
+    pub schema: &'a Schema,
+}
+
+impl<'a> WfCodec<'a> {
+    fn tlv_file(fields: &[(u16, Vec<u8>)]) -> Vec<u8> {
+        let mut inner = vec![];
+        for (tag, val) in fields {
+            inner.extend(refcodec::codec::tag_bytes(*tag).unwrap());
+            inner.extend(refcodec::codec::ber_len(val.len()).unwrap());
+            inner.extend(val);
+        }
+        let mut file = vec![0x2d];
+        file.extend(refcodec::codec::ber_len(inner.len()).unwrap());
+        file.extend(inner);
+        file
+    }
+    fn apdu(cf: [u8; 2], body: Vec<u8>) -> Vec<u8> {
+        let mut p = cf.to_vec();
+        p.extend(apdu_len(body.len()).unwrap());
+        p.extend(body);
+        p
+    }
+    fn with_06(body: Vec<u8>) -> Vec<u8> {
+        let mut out = vec![0x06];
+        out.extend(refcodec::codec::ber_len(body.len()).unwrap());
+        out.extend(body);
+        out
+    }
+    /// 08 14: password + announced files (in ascending id order; the real order is free)
+    pub fn announce(password: u128, files: &BTreeMap<u8, u32>) -> Vec<u8> {
+        let mut body = vec![0u8; 3];
+        let pb = refcodec::codec::bcd_bytes(password);
+        body[3 - pb.len()..].copy_from_slice(&pb);
+        let mut list = vec![];
+        for (id, size) in files {
+            list.extend(Self::tlv_file(&[(0x1d, vec![*id]), (0x1f00, size.to_be_bytes().to_vec())]));
+        }
+        body.extend(Self::with_06(list));
+        Self::apdu([0x08, 0x14], body)
+    }
+    /// 04 0C request for data
+    pub fn request(id: Option<u8>, offset: Option<u32>, container: bool, file: bool) -> Vec<u8> {
+        if !container {
+            return Self::apdu([0x04, 0x0c], vec![]);
+        }
+        if !file {
+            return Self::apdu([0x04, 0x0c], Self::with_06(vec![]));
+        }
+        let mut f = vec![];
+        if let Some(id) = id {
+            f.push((0x1d, vec![id]));
+        }
+        if let Some(o) = offset {
+            f.push((0x1e, o.to_be_bytes().to_vec()));
+        }
+        Self::apdu([0x04, 0x0c], Self::with_06(Self::tlv_file(&f)))
+    }
+    /// 80 00 data block answering (id, offset)
+    pub fn data_block(id: u8, offset: u32, payload: &[u8]) -> Vec<u8> {
+        let mut f = vec![(0x1d, vec![id]), (0x1e, offset.to_be_bytes().to_vec())];
+        if !payload.is_empty() {
+            f.push((0x1c, payload.to_vec()));
+        }
+        Self::apdu([0x80, 0x00], Self::with_06(Self::tlv_file(&f)))
+    }
+}
+
+pub fn slice_of(file: &[u8], offset: u32, block: u32) -> &[u8] {
+    let o = (offset as usize).min(file.len());
+    let e = (o + block as usize).min(file.len());
+    &file[o..e]
+}
+
+// ---------------------------------------------------------------- C05 / C06 drivers
+
+fn junk_variants(rng: &mut Rng, pools: &Pools) -> Vec<Vec<u8>> {
+    let n = 1 + rng.below(12) as usize;
+    vec![vec![], pools.pick(rng, "packets::CompletionData").0.clone(), rng.bytes(n)]
+}
+
+fn make_reply(sd: &StreamDef, pools: &Pools, rng: &mut Rng, variant: &str) -> Reply {
+    let key = variant_key(sd, variant);
+    let (bytes, dbg) = pools.pick(rng, key).clone();
+    Reply { variant: variant.to_string(), bytes, item_debug: format!("{variant}({dbg})"), answer: ACK.to_vec() }
+}
+
+/// A small upload directory for the WriteFile stream inside C05/C06.
+fn small_dir(tag: &str, rng: &mut Rng) -> (PayloadDir, WriteFileParams, BTreeMap<u8, u32>) {
+    let mut files = BTreeMap::new();
+    for (_, id) in RECOGNISED.iter() {
+        if rng.chance(1, 5) {
+            let n = rng.below(300) as usize;
+            files.insert(*id, rng.bytes(n));
+        }
+    }
+    if files.is_empty() {
+        files.insert(0x10, rng.bytes(77));
+    }
+    let dir = PayloadDir::create(tag, &files, &[]);
+    let sizes = files.iter().map(|(k, v)| (*k, v.len() as u32)).collect();
+    let params = WriteFileParams { dir: dir.dir.clone(), password: rng.below(1_000_000) as usize, block: *rng.pick(&[1u32, 7, 64, 128, 255, 256, 1024]) };
+    (dir, params, sizes)
+}
+
+fn wf_request_reply(rng: &mut Rng, dir: &PayloadDir, block: u32) -> Reply {
+    let ids: Vec<u8> = dir.files.keys().cloned().collect();
+    let id = *rng.pick(&ids);
+    let file = &dir.files[&id];
+    let offset = match rng.below(4) {
+        0 => 0,
+        1 => file.len() as u32,
+        2 => file.len() as u32 + rng.below(5) as u32,
+        _ => rng.below(file.len() as u64 + 1) as u32,
+    };
+    let bytes = WfCodec::request(Some(id), Some(offset), true, true);
+    let dbg = format!("RequestForData(RequestForData {{ tlv: Some(WriteData {{ file: Some(File {{ file_id: Some({id}), file_offset: Some({offset}), file_size: None, payload: None }}) }}) }})");
+    Reply { variant: "RequestForData".into(), bytes, item_debug: dbg, answer: WfCodec::data_block(id, offset, slice_of(file, offset, block)) }
+}
+
+pub fn run_c05(ctx: &Ctx) -> i32 {
+    let mut report = ctx.report("C05", "exploration");
+    let depth = ctx.by(5usize, 6usize);
+    report.rule = format!("18 streams (17 Sequence impls + feig WriteFile) x every reply script of the form non-final^d final with d < {depth} over the stream's reply alphabet (single-reply streams: every variant), each letter instantiated with canonical values of the variant's type (several per letter, reference-encoded), x junk behind the final packet {{none, a valid packet, random bytes}} x chunking {{whole, byte-wise with a Pending wake-up between chunks}} x partial writes; plus random scripts to depth 40. The terminal releases reply i+1 only after reply i was answered (gate). Oracle: the abstract event log must equal [W(command), Read(ack+r1), W(answer1), Yield(r1), Read(r2), W(answer2), Yield(r2) ... End] and the stream cursor must sit exactly behind the final packet. Non-trivial = script with at least one reply; distinct by hash of (stream, script bytes, junk, chunking).");
+    report.exhaustive = Some(true);
+    report.assumptions = vec!["reply sets and final packets per stream: DESIGN Appendix B (refcodec::tables), written from the specification".into(), "commands are obtained by decoding reference encodings (C03 covers that bridge)".into()];
+    let schema = refcodec::zvt_schema();
+    let pools = Pools::build(&schema, ctx.seed, 6);
+    let threads = ctx.threads;
+    let seed = ctx.seed;
+    let n_random = ctx.by(60usize, 3000usize);
+    sharded(&mut report, threads, |shard, r| {
+        let mut rng = Rng::derive(seed, 0xC05 + shard as u64);
+        let mut work = 0usize;
+        for sd in STREAMS {
+            let is_wf = sd.name == "feig::WriteFile";
+            let mut scripts = scripts_up_to(sd, depth);
+            // random long scripts
+            for _ in 0..n_random {
+                if sd.finals.is_empty() {
+                    break;
+                }
+                let e = reply_enum(sd.replies);
+                let nf: Vec<&'static str> = e.variants.iter().map(|v| v.0).filter(|v| !sd.finals.contains(v)).collect();
+                if nf.is_empty() {
+                    break;
+                }
+                let d = 5 + rng.below(36) as usize;
+                let mut w: Vec<&'static str> = (0..d).map(|_| *rng.pick(&nf)).collect();
+                w.push(*rng.pick(sd.finals));
+                scripts.push(w);
+            }
+            r.count("scripts", 0);
+            for script in scripts {
+                work += 1;
+                if work % threads != shard {
+                    continue;
+                }
+                let wf_ctx = if is_wf { Some(small_dir(&format!("c05-{shard}"), &mut rng)) } else { None };
+                let replies: Vec<Reply> = script
+                    .iter()
+                    .map(|v| match (&wf_ctx, *v) {
+                        (Some((dir, params, _)), "RequestForData") => wf_request_reply(&mut rng, dir, params.block),
+                        _ => make_reply(sd, &pools, &mut rng, v),
+                    })
+                    .collect();
+                let (cmd_bytes, cmd_check) = match &wf_ctx {
+                    Some((_, params, sizes)) => {
+                        let b = WfCodec::announce(params.password as u128, sizes);
+                        (b.clone(), CmdCheck::WriteFile { password: params.password as u128, files: sizes.clone(), len: b.len() })
+                    }
+                    None => {
+                        let b = command_for(&schema, &pools, &mut rng, sd);
+                        (b.clone(), CmdCheck::Exact(b))
+                    }
+                };
+                for junk in junk_variants(&mut rng, &pools) {
+                    for (chunking, pend, wchunk) in [(Chunking::Whole, false, None), (Chunking::Bytewise, true, Some(1 + rng.below(3) as usize))] {
+                        let ex = Exchange {
+                            stream: sd.name,
+                            cmd_bytes: cmd_bytes.clone(),
+                            cmd_check: match &cmd_check {
+                                CmdCheck::Exact(b) => CmdCheck::Exact(b.clone()),
+                                CmdCheck::WriteFile { password, files, len } => CmdCheck::WriteFile { password: *password, files: files.clone(), len: *len },
+                            },
+                            ack: ACK.to_vec(),
+                            replies: replies.clone(),
+                            final_at: Some(replies.len() - 1),
+                            junk: junk.clone(),
+                            chunking,
+                            pend_between: pend,
+                            write_chunk: wchunk,
+                            fault: None,
+                            wf: wf_ctx.as_ref().map(|c| &c.1),
+                        };
+                        let mut h = fnv(sd.name.as_bytes()) ^ fnv(&cmd_bytes);
+                        for rp in &replies {
+                            h = h.wrapping_mul(0x100000001b3) ^ fnv(&rp.bytes);
+                        }
+                        h ^= fnv(&junk).rotate_left(7) ^ (pend as u64);
+                        r.case(h, true);
+                        r.note("streams_seen", sd.name);
+                        r.note("final_packets_seen", &format!("{}:{}", sd.name, script.last().unwrap()));
+                        if script.len() > 5 {
+                            r.count("scripts_longer_than_5", 1);
+                        }
+                        ex.check_c05(r, &schema, "C05");
+                    }
+                }
+            }
+        }
+    });
+    let missing: Vec<&str> = STREAMS.iter().map(|s| s.name).filter(|n| !report.sets.get("streams_seen").map(|s| s.contains(*n)).unwrap_or(false)).collect();
+    if !missing.is_empty() {
+        report.inconclusive(&format!("streams not exercised: {missing:?}"));
+    }
+    report.extra.insert("depth".into(), json!(depth));
+    report.finish()
+}
+
+/// Malformed bodies for a control field inside the reply set: inputs whose rejection C13/C02 make mandatory.
+fn malformed(schema: &Schema, pools: &Pools, rng: &mut Rng, key: &str) -> Option<Vec<u8>> {
+    let def = schema.get(key);
+    let (c, i) = def.cf?;
+    let codec = Codec::new(schema);
+    let has_pos_mandatory = def.fields.iter().any(|f| f.tag.is_none() && f.card == refcodec::layout::Card::One && !matches!(f.enc, refcodec::layout::Enc::Cp437));
+    let mut cands: Vec<Vec<u8>> = vec![];
+    if has_pos_mandatory {
+        cands.push(vec![c, i, 0]); // mandatory positional field missing
+    }
+    // duplicate a non-repeated top-level tagged field; or cut a tagged field's value short
+    for _ in 0..6 {
+        let (bytes, _) = pools.pick(rng, key);
+        let (v, _) = codec.decode(def, bytes).ok()?;
+        let tree = codec.enc_top(def, &v).ok()?;
+        let mut t = tree.clone();
+        if let Payload::Struct(s) = &mut t.payload {
+            if let Some(gi) = (0..s.groups.len()).find(|gi| !s.groups[*gi].repeated) {
+                let g = s.groups[gi].clone();
+                s.groups.push(g);
+                if let Some(b) = t.bytes() {
+                    cands.push(b);
+                }
+                // value cut short: keep only the tag (and length prefix) of the last non-repeated group, at the very end
+                let mut t2 = tree.clone();
+                if let Payload::Struct(s2) = &mut t2.payload {
+                    let g = s2.groups.remove(gi);
+                    let mut body = s2.bytes()?;
+                    let eb = g.elems[0].bytes()?;
+                    if eb.len() > g.elems[0].tag.len() {
+                        body.extend(&eb[..eb.len() - 1]);
+                        let mut p = vec![c, i];
+                        p.extend(apdu_len(body.len())?);
+                        p.extend(body);
+                        cands.push(p);
+                    }
+                }
+            }
+        }
+    }
+    // keep only those the reference decoder rejects for a reason the codec properties make mandatory
+    cands.retain(|b| matches!(codec.decode(def, b), Err(refcodec::codec::RefErr::Incomplete | refcodec::codec::RefErr::Duplicate(_) | refcodec::codec::RefErr::Missing(_))));
+    if cands.is_empty() {
+        None
+    } else {
+        Some(cands[rng.below(cands.len() as u64) as usize].clone())
+    }
+}
+
+pub fn run_c06(ctx: &Ctx) -> i32 {
+    let mut report = ctx.report("C06", "fault_enumeration");
+    let depth = ctx.by(4usize, 5usize);
+    report.rule = format!("18 streams x every valid prefix of non-final replies of length <= {depth} x fault kinds {{NACK 84xx in place of a packet, control field outside the reply set, malformed body for a control field inside the set (rejected by the reference decoder as incomplete/duplicate/missing), packet truncated at every offset followed by end of stream, clean end of stream at the packet boundary}} at every position (the acknowledgement position included), chunking whole / byte-wise. Oracle over the event log: the valid prefix is processed exactly as in C05; after the first faulty byte was delivered there is no write at all, exactly one Err item, then End (no parking). Non-trivial = every fault scenario; distinct by hash of (stream, prefix bytes, fault bytes, position, chunking).");
+    report.exhaustive = Some(true);
+    report.assumptions = vec!["malformed bodies are restricted to those whose rejection follows from C02/C13 (top-level duplicate tag, value cut short, missing positional field)".into()];
+    let schema = refcodec::zvt_schema();
+    let pools = Pools::build(&schema, ctx.seed, 6);
+    let threads = ctx.threads;
+    let seed = ctx.seed;
+    sharded(&mut report, threads, |shard, r| {
+        let mut rng = Rng::derive(seed, 0xC06 + shard as u64);
+        let mut work = 0usize;
+        for sd in STREAMS {
+            let is_wf = sd.name == "feig::WriteFile";
+            let e = reply_enum(sd.replies);
+            let in_set: Vec<(u8, u8)> = e.variants.iter().filter_map(|v| schema.get(v.1).cf).collect();
+            for prefix in prefixes_up_to(sd, depth) {
+                work += 1;
+                if work % threads != shard {
+                    continue;
+                }
+                let wf_ctx = if is_wf { Some(small_dir(&format!("c06-{shard}"), &mut rng)) } else { None };
+                let replies: Vec<Reply> = prefix
+                    .iter()
+                    .map(|v| match (&wf_ctx, *v) {
+                        (Some((dir, params, _)), "RequestForData") => wf_request_reply(&mut rng, dir, params.block),
+                        _ => make_reply(sd, &pools, &mut rng, v),
+                    })
+                    .collect();
+                let (cmd_bytes, mk_check): (Vec<u8>, Box<dyn Fn() -> CmdCheck>) = match &wf_ctx {
+                    Some((_, params, sizes)) => {
+                        let b = WfCodec::announce(params.password as u128, sizes);
+                        let (pw, sz, l) = (params.password as u128, sizes.clone(), b.len());
+                        (b, Box::new(move || CmdCheck::WriteFile { password: pw, files: sz.clone(), len: l }))
+                    }
+                    None => {
+                        let b = command_for(&schema, &pools, &mut rng, sd);
+                        let b2 = b.clone();
+                        (b, Box::new(move || CmdCheck::Exact(b2.clone())))
+                    }
+                };
+                // the packet that would come next (to be truncated), and the faults
+                let next_variant = *rng.pick(&e.variants.iter().map(|v| v.0).collect::<Vec<_>>());
+                let next = make_reply(sd, &pools, &mut rng, next_variant);
+                let mut faults: Vec<Fault> = vec![];
+                let positions: Vec<bool> = if prefix.is_empty() { vec![true, false] } else { vec![false] };
+                for at_ack in positions {
+                    let whole: Vec<u8> = if at_ack { ACK.to_vec() } else { next.bytes.clone() };
+                    faults.push(Fault { kind: "nack", at_ack, bytes: vec![0x84, rng.byte(), 0x00], eof: false });
+                    // foreign control field: a valid packet of a type outside the reply set
+                    let foreign_key = loop {
+                        let k = *rng.pick(&["packets::Registration", "packets::SetTimeAndDate", "packets::ReadCard", "packets::EndOfDay", "feig::packets::WriteFile", "packets::Authorization"]);
+                        let cf = schema.get(k).cf.unwrap();
+                        if at_ack || !in_set.contains(&cf) {
+                            break k;
+                        }
+                    };
+                    faults.push(Fault { kind: "foreign-control-field", at_ack, bytes: pools.pick(&mut rng, foreign_key).0.clone(), eof: false });
+                    if !at_ack {
+                        let v = *rng.pick(&e.variants.iter().map(|v| v.1).collect::<Vec<_>>());
+                        if let Some(b) = malformed(&schema, &pools, &mut rng, v) {
+                            faults.push(Fault { kind: "malformed-body", at_ack, bytes: b, eof: false });
+                        }
+                    }
+                    for cut in 0..whole.len() {
+                        faults.push(Fault { kind: if cut == 0 { "eof-at-boundary" } else { "truncated" }, at_ack, bytes: whole[..cut].to_vec(), eof: true });
+                    }
+                }
+                for f in faults {
+                    for (chunking, pend) in [(Chunking::Whole, false), (Chunking::Bytewise, true)] {
+                        let ex = Exchange {
+                            stream: sd.name,
+                            cmd_bytes: cmd_bytes.clone(),
+                            cmd_check: mk_check(),
+                            ack: ACK.to_vec(),
+                            replies: replies.clone(),
+                            final_at: None,
+                            junk: vec![],
+                            chunking,
+                            pend_between: pend,
+                            write_chunk: None,
+                            fault: Some(f.clone()),
+                            wf: wf_ctx.as_ref().map(|c| &c.1),
+                        };
+                        let mut h = fnv(sd.name.as_bytes()) ^ fnv(&cmd_bytes) ^ fnv(&f.bytes).rotate_left(11) ^ (f.at_ack as u64) << 1 ^ pend as u64;
+                        for rp in &replies {
+                            h = h.wrapping_mul(0x100000001b3) ^ fnv(&rp.bytes);
+                        }
+                        r.case(h, true);
+                        r.note("streams_seen", sd.name);
+                        r.count(&format!("faults.{}", f.kind), 1);
+                        r.note("fault_positions_seen", &format!("{}:{}", f.kind, if f.at_ack { "ack".to_string() } else { prefix.len().to_string() }));
+                        ex.check_c06(r, &schema, "C06");
+                    }
+                }
+            }
+        }
+    });
+    let missing: Vec<&str> = STREAMS.iter().map(|s| s.name).filter(|n| !report.sets.get("streams_seen").map(|s| s.contains(*n)).unwrap_or(false)).collect();
+    if !missing.is_empty() {
+        report.inconclusive(&format!("streams not exercised: {missing:?}"));
+    }
+    report.extra.insert("depth".into(), json!(depth));
+    report.finish()
+}
